@@ -83,6 +83,41 @@ func genAuthn(repo string) (string, error) {
 		}
 		return true
 	})
+	rawKeys := append([]string(nil), keyList...)
+	// every tokenMap access of the function, in source order, with the raw index expression
+	var keyUses []string
+	ast.Inspect(cc.Body, func(n ast.Node) bool {
+		if ix, ok := n.(*ast.IndexExpr); ok && p.str(ix.X) == "a.tokenMap" {
+			keyUses = append(keyUses, p.str(ix.Index))
+		}
+		return true
+	})
+	// fields of API that could serve as shared scratch space for a key (byte slices / arrays / buffers)
+	var scratch []string
+	for _, d := range p.f.Decls {
+		gd, ok := d.(*ast.GenDecl)
+		if !ok {
+			continue
+		}
+		for _, sp := range gd.Specs {
+			ts, ok := sp.(*ast.TypeSpec)
+			if !ok || ts.Name.Name != "API" {
+				continue
+			}
+			stt, ok := ts.Type.(*ast.StructType)
+			if !ok {
+				return "", fmt.Errorf("type API is not a struct")
+			}
+			for _, f := range stt.Fields.List {
+				t := p.str(f.Type)
+				if strings.Contains(t, "[]byte") || strings.Contains(t, "]byte") || strings.Contains(t, "bytes.Buffer") || strings.Contains(t, "strings.Builder") {
+					for _, n := range f.Names {
+						scratch = append(scratch, n.Name+" "+t)
+					}
+				}
+			}
+		}
+	}
 	if len(keyList) != 1 {
 		return "", fmt.Errorf("cachedTokenAuthnCheck: expected one cache-key expression, found %v", keyList)
 	}
@@ -180,6 +215,9 @@ func genAuthn(repo string) (string, error) {
 	out := "/- GENERATED by /verif/gen/authn.go from net/http/authn/authn.go and accesstoken/accesstoken.go — do not edit -/\n" +
 		"namespace BytomModel.Gen.Authn\n\n" +
 		fmt.Sprintf("def cacheKeyExpr : String := %s\n", n2leanStr(keyList[0])) +
+		fmt.Sprintf("def tokenMapKeyUses : List String := %s\n", n2leanStrList(keyUses)) +
+		fmt.Sprintf("def tokenMapRawKeys : List String := %s\n", n2leanStrList(rawKeys)) +
+		fmt.Sprintf("def apiScratchFields : List String := %s\n", n2leanStrList(scratch)) +
 		fmt.Sprintf("def staleCond : String := %s\n", n2leanStr(stale)) +
 		fmt.Sprintf("def cachedCheckChain : List String := %s\n", n2leanStrList(ccChain)) +
 		fmt.Sprintf("def tokenExpirySeconds : Nat := %d\n", expSec) +
